@@ -1,9 +1,13 @@
 #!/usr/bin/env python3
-"""tools/seedrun.py <patch.diff> <ID> [<ID>...] [--tier quick|thorough]
-Applies a seeded change to /repo, runs the given checks, and ALWAYS reverts /repo afterwards.  Prints one line per check."""
-import subprocess, sys, time, os
+"""tools/seedrun.py <patch.diff> <ID> [<ID>...] [--tier quick|thorough] [--record]
+Applies a seeded change to /repo, runs the given checks, and ALWAYS reverts /repo afterwards.  Prints one line per check.
+The evidence files of the checks run are put back afterwards (evidence describes the unchanged tree, not a seeded one).
+--record: writes the outcome into meta.json next to the patch (checks_run / how_run)."""
+import subprocess, sys, time, os, json, shutil
 args = sys.argv[1:]
 tier = "quick"
+record = "--record" in args
+if record: args.remove("--record")
 if "--tier" in args:
     i = args.index("--tier"); tier = args[i + 1]; del args[i:i + 2]
 patch, ids = args[0], args[1:]
@@ -13,12 +17,30 @@ if st:
 r = subprocess.run(["git", "-C", "/repo", "apply", os.path.abspath(patch)], capture_output=True, text=True)
 if r.returncode != 0:
     print("patch does not apply:", r.stderr); sys.exit(2)
+V = os.path.join(os.path.dirname(os.path.abspath(__file__)), "..")
+outcome = {}
 try:
     for pid in ids:
+        ev = os.path.join(V, "evidence", pid + ".json")
+        if os.path.exists(ev): shutil.copy(ev, ev + ".keep")
         t0 = time.time()
         r = subprocess.run([os.path.join(os.path.dirname(os.path.abspath(__file__)), "..", "check"), pid, "--tier", tier], capture_output=True, text=True, errors="replace")
         viol = [l for l in r.stdout.splitlines() if l.startswith("VIOLATION")]
         detail = [l.strip() for l in r.stderr.splitlines() if "violation detail" in l]
-        print("%s rc=%d %s in %.0fs %s" % (pid, r.returncode, "CAUGHT" if viol else ("INFRA" if r.returncode == 2 else "missed"), time.time() - t0, (detail[0][:300] if detail else "")))
+        res = "CAUGHT" if viol else ("INFRA" if r.returncode == 2 else "missed")
+        outcome[pid] = res + ((" -- " + detail[0].split("violation detail:", 1)[-1].strip()[:200]) if viol and detail else "")
+        print("%s rc=%d %s in %.0fs %s" % (pid, r.returncode, res, time.time() - t0, (detail[0][:300] if detail else "")))
+        if os.path.exists(ev + ".keep"): shutil.move(ev + ".keep", ev)
+        shutil.rmtree(os.path.join(V, "replays", pid), ignore_errors=True)
 finally:
     subprocess.run(["git", "-C", "/repo", "checkout", "--", "."])
+if record:
+    mp = os.path.join(os.path.dirname(os.path.abspath(patch)), "meta.json")
+    m = json.load(open(mp))
+    cr = m.get("checks_run", {})
+    for k, v in outcome.items():
+        if k in cr and "only after" in cr[k] and v.startswith("CAUGHT"): continue     # keep the hand-written history of a strengthened check
+        cr[k] = v
+    m["checks_run"] = cr
+    m["how_run"] = "tools/seedrun.py <patch> <IDs> --tier %s  (git -C /repo apply; ./check <ID> --tier %s; git -C /repo checkout -- .)" % (tier, tier)
+    json.dump(m, open(mp, "w"), indent=1)
